@@ -24,6 +24,9 @@ TRUSTED = [
     "z3, cvc5, sympy normal form, CPython ast; n and S enumerated (n<=4 quick, n<=5 thorough)",
 ]
 ASSUMPTIONS = TRUSTED
+TECHNIQUE = 'VC generation from the real AST of partial_trace (callee permute_systems by contract) + z3/normal-form discharge, per (n, S ordering) for all dimensions and entries; bounded run-time contracts for scalar/omitted dims, corollaries and the cvxpy path'
+LEVEL_TEXT = 'Proof per enumerated (n <= 4/5, traced set S in every listing order, int form) instance: for ALL local dimensions (>= 1) and ALL entries the result is the stated index contraction with the remaining subsystems in original order. Corollaries (linearity, trace, composition), scalar/omitted arguments and the cvxpy-Variable path are bounded run-time checks.'
+ENGINES = ["E1-pyvc", "E3-E4-rtc"]
 from props.index_clauses import CLAUSES  # noqa: E402,F401
 
 
